@@ -9,6 +9,9 @@
                      and are otherwise the same text up to local names (df_accerr: S ends `return x, sr.AccError()`, R `return x, nil`)
      CContainerBody  the reader-path decoder reads the body itself (io.ReadAll(io.LimitReader(..payloadLen()))), then is the text of S on a
                      private reader (moov, moof; df_accerr as above)
+     CPureTwin       neither decoder touches its reader; the two bodies are the same text up to local names (the same function of the header)
+     CRawBody        reader path: readBoxBody, then a box built from `data`; SR path: the same box built from
+                     sr.ReadBytes(hdr.payloadLen()), returned with sr.AccError() (the opaque leaf std_r / std_sr of the framing model)
      CSeparate       anything else
    df_relative: the SR decoder uses its reader only through position-relative operations (hypothesis local_xprog of
    C03_delegate_sound_ext). *)
@@ -16,7 +19,7 @@ From Coq Require Import List String NArith Bool.
 Import ListNotations.
 Open Scope string_scope.
 
-Inductive dclass := CDelegating | CContainerTwin | CContainerBody | CSeparate.
+Inductive dclass := CDelegating | CContainerTwin | CContainerBody | CPureTwin | CRawBody | CSeparate.
 Record decfact := mkdec { df_key : list N; df_r : string; df_s : string; df_class : dclass; df_accerr : bool; df_relative : bool }.
 
 Inductive eclass := EDelegating | EContainer | EHeader | ETwin | ESeparate.
@@ -24,7 +27,8 @@ Record encfact := mkenc { ef_type : string; ef_class : eclass }.
 
 Definition dclass_eqb (a b : dclass) : bool :=
   match a, b with
-  | CDelegating, CDelegating | CContainerTwin, CContainerTwin | CContainerBody, CContainerBody | CSeparate, CSeparate => true
+  | CDelegating, CDelegating | CContainerTwin, CContainerTwin | CContainerBody, CContainerBody | CSeparate, CSeparate
+  | CPureTwin, CPureTwin | CRawBody, CRawBody => true
   | _, _ => false
   end.
 
@@ -41,8 +45,7 @@ Definition c03_separate_proved : list string :=
   ; "DecodeTfdt"   (* C03_fragment_progs_local + C03_prog_pair_agree *) ].
 (* separately written pairs that are explored only (both paths run on every harvested / generated box by the search) *)
 Definition c03_separate_explored : list string :=
-  [ "DecodeAudioSampleEntry"; "DecodeAv1C"; "DecodeAvcC"; "DecodeCdat"; "DecodeDac3"; "DecodeDec3"; "DecodeDref"; "DecodeEmeb";
-    "DecodeFree"; "DecodeHvcC"; "DecodeStyp"; "DecodeVttc"; "DecodeVtte" ].
+  [ "DecodeAudioSampleEntry"; "DecodeAv1C"; "DecodeAvcC"; "DecodeDac3"; "DecodeDec3"; "DecodeDref"; "DecodeHvcC"; "DecodeStyp"; "DecodeVttc" ].
 (* delegating pairs whose SR decoder is NOT position-relative, with their own pair theorem *)
 Definition c03_delegating_nonrelative_proved : list string :=
   [ "DecodeVisualSampleEntry"  (* C03_vse_pair_agree_canonical *) ].
@@ -58,6 +61,8 @@ Definition dec_ok (f : decfact) : bool :=
   | CDelegating => df_relative f || smem (df_r f) c03_delegating_nonrelative_proved || smem (df_r f) c03_delegating_nonrelative_explored
   | CContainerTwin => negb (df_accerr f) || smem (df_r f) c03_twin_accerr_explored
   | CContainerBody => true          (* KContBody accerr of the framing model, both values *)
+  | CPureTwin => true               (* one function of (hdr, startPos), written twice *)
+  | CRawBody => true                (* C03_std_canon_leaf: the opaque leaf of the framing model *)
   | CSeparate => smem (df_r f) c03_separate_proved || smem (df_r f) c03_separate_explored
   end.
 
@@ -69,6 +74,7 @@ Definition dec_coverage (f : decfact) : coverage :=
                    else if smem (df_r f) c03_delegating_nonrelative_proved then CovPairTheorem else CovExplored
   | CContainerTwin => if df_accerr f then CovExplored else CovFraming
   | CContainerBody => CovFraming
+  | CPureTwin | CRawBody => CovFraming
   | CSeparate => if smem (df_r f) c03_separate_proved then CovPairTheorem else CovExplored
   end.
 Definition count_cov (c : coverage) (l : list decfact) : nat :=
